@@ -99,6 +99,9 @@ int main(int argc, char **argv)
 	vf::g_scratch = tmpl;
 	if (chdir(tmpl)) { perror("chdir"); return 2; }
 	FIX8::GlobalLogger::set_global_filename(std::string(tmpl) + "/global.log");
+	// nothing is written to the global logger: a library thread that logs and then exits (the Timer thread announces its termination there) races with the
+	// logger thread inside the bundled FastFlow allocator (DESIGN 10.14) - not the subject of any listed property
+	FIX8::GlobalLogger::set_levels(FIX8::Logger::Levels());
 
 	std::ios::sync_with_stdio(false);
 	std::string line;
